@@ -162,9 +162,9 @@ func H_C17_scan2_num() {
 	checkScanOpt(2, c17NumEntry, c17NumBound, false, false)
 }
 
-//verif:harness props=C17 tier=thorough bounds="index of 2 entries (nil/float64/string<=1/bool), range bounds nil or float64/string<=1, flags, both directions, consumer stop after k in 0..3"
+//verif:harness props=C17 tier=thorough bounds="index of 2 entries (nil/float64/string<=1/bool), range bounds nil or float64/string<=1, flags, both directions"
 func H_C17_scan2() {
-	checkScanOpt(2, c17Entry, c17ScanBound, false, true)
+	checkScanOpt(2, c17Entry, c17ScanBound, false, false)
 }
 
 //verif:harness props=C17 tier=quick bounds="full iteration of an index of 2 entries (nil/float64/string<=1/bool), both directions, consumer stop after k in 0..3"
